@@ -19,7 +19,7 @@ RULE = (
 )
 ASSUMPTIONS = ["MuJoCo C 3.13 python bindings are the reference", "tolerances: 2e-5*scale kinematics, 1e-4 com/inertia/tendon", "CPU device"]
 BUDGET = {
-  "quick": dict(examples=640, seconds=120, workers=16),
+  "quick": dict(examples=640, seconds=420, workers=16),
   "thorough": dict(examples=16000, seconds=1200, workers=16),
 }
 
